@@ -100,7 +100,14 @@ def step (m : M) (toks : List String) : M × String :=
   | some op =>
     if admissible m.created op then
       let r := stepOp m op
-      (r.1, renderAns r.2.1)
+      -- While the environment holds (or may hold) an executor, WHICH of several due tasks sharing a
+      -- worker gets it first depends on goroutine timing in the real scheduler (a worker can become
+      -- free again in the middle of a pass), so the runs and `when` of such operations are not
+      -- predicted (`*`); the oracle still judges them.  Once nothing is held and the scheduler has come
+      -- to rest, the state is a function of the schedules and the clock again.
+      let undetermined := (!m.blocked.isEmpty || !r.1.blocked.isEmpty) &&
+        (match op with | .spin _ _ _ => false | _ => true)
+      (r.1, if undetermined then "*" else renderAns r.2.1)
     else (m, "bad-op")
   | none => (m, "bad-op")
 
